@@ -28,6 +28,70 @@ type Env struct {
 	ef     map[edge][]Fact
 	touch  *touchSet // collects SSA values visited while building terms (for staleness checks)
 	inPhi  map[*ssa.Phi]bool
+	// for the body of a function literal: the MakeClosure that binds its free variables (Parent = env of the enclosing function)
+	closure *ssa.MakeClosure
+}
+
+// SubClosure: the env of the function literal created by mc in e's function.
+func (e *Env) SubClosure(mc *ssa.MakeClosure) *Env {
+	fn, _ := mc.Fn.(*ssa.Function)
+	if fn == nil {
+		return nil
+	}
+	return &Env{P: e.P, Fn: fn, Parent: e, closure: mc, depth: e.depth + 1, ctx: e.ctx + "/" + e.Fn.Name() + ".lit" + valueName(mc)}
+}
+
+// cellValue: the single value ever stored into the variable cell bound to free variable fv of this closure — by the
+// enclosing function or by a sibling closure that captures the same cell — with the env to read it in.
+func (e *Env) cellValue(fv *ssa.FreeVar) (ssa.Value, *Env) {
+	if e.closure == nil || e.Parent == nil {
+		return nil, nil
+	}
+	idx := -1
+	for i, q := range e.Fn.FreeVars {
+		if q == fv {
+			idx = i
+		}
+	}
+	if idx < 0 || idx >= len(e.closure.Bindings) {
+		return nil, nil
+	}
+	cell, ok := e.closure.Bindings[idx].(*ssa.Alloc)
+	if !ok || cell.Referrers() == nil {
+		return nil, nil
+	}
+	var val ssa.Value
+	var venv *Env
+	n := 0
+	for _, r := range *cell.Referrers() {
+		switch x := r.(type) {
+		case *ssa.Store:
+			if x.Addr == ssa.Value(cell) {
+				n++
+				val, venv = x.Val, e.Parent
+			}
+		case *ssa.MakeClosure:
+			f2, _ := x.Fn.(*ssa.Function)
+			if f2 == nil {
+				continue
+			}
+			for j, b := range x.Bindings {
+				if b != ssa.Value(cell) || j >= len(f2.FreeVars) || f2.FreeVars[j].Referrers() == nil {
+					continue
+				}
+				for _, r2 := range *f2.FreeVars[j].Referrers() {
+					if st, ok := r2.(*ssa.Store); ok && st.Addr == ssa.Value(f2.FreeVars[j]) {
+						n++
+						val, venv = st.Val, e.Parent.SubClosure(x)
+					}
+				}
+			}
+		}
+	}
+	if n != 1 {
+		return nil, nil
+	}
+	return val, venv
 }
 
 type touchSet struct{ vals map[ssa.Value]bool }
@@ -628,6 +692,13 @@ func (e *Env) Term(v ssa.Value) string {
 		}
 		return "P:" + paramName(v)
 	case *ssa.FreeVar:
+		if e.closure != nil && e.Parent != nil {
+			for i, q := range e.Fn.FreeVars {
+				if q == v && i < len(e.closure.Bindings) {
+					return "&" + e.Parent.Term(e.closure.Bindings[i])
+				}
+			}
+		}
 		return "FV:" + v.Name()
 	case *ssa.Const:
 		if v.Value == nil {
@@ -687,6 +758,12 @@ func (e *Env) Term(v ssa.Value) string {
 			}
 			if w, we := e.ctorField(v); w != nil {
 				return we.Term(w)
+			}
+			if fv, ok := v.X.(*ssa.FreeVar); ok {
+				// a captured variable that is assigned exactly once (by the enclosing function or a sibling literal)
+				if w, we := e.cellValue(fv); w != nil && we != nil && we.depth < 8 {
+					return we.Term(w)
+				}
 			}
 			return "*" + e.Term(v.X)
 		}
